@@ -182,6 +182,29 @@ impl OptChainVisitor<'_> {
     }
 }
 
+impl OptChainVisitor<'_> {
+    /*
+     * Only the chain itself (callee / object links) belongs to the optional chain being
+     *  rewritten. Call arguments and computed keys are separate expressions: an optional chain
+     *  inside them must keep its own guard and is handled by the operation visitor afterwards.
+     */
+    fn visit_mut_spine(&mut self, expr: &mut Expr) {
+        match expr {
+            Expr::OptChain(opt_chain_expr) => match &mut *opt_chain_expr.base {
+                OptChainBase::Call(call_expr) => self.visit_mut_expr(&mut call_expr.callee),
+                OptChainBase::Member(member_expr) => self.visit_mut_expr(&mut member_expr.obj),
+            },
+            Expr::Call(call_expr) => {
+                if let Callee::Expr(callee) = &mut call_expr.callee {
+                    self.visit_mut_expr(callee)
+                }
+            }
+            Expr::Member(member_expr) => self.visit_mut_expr(&mut member_expr.obj),
+            _ => {}
+        }
+    }
+}
+
 impl Visit for OptChainVisitor<'_> {}
 
 impl VisitMut for OptChainVisitor<'_> {
@@ -236,11 +259,11 @@ impl VisitMut for OptChainVisitor<'_> {
                     }
                 }
 
-                expr.visit_mut_children_with(self);
+                self.visit_mut_spine(expr);
             }
 
             _ => {
-                expr.visit_mut_children_with(self);
+                self.visit_mut_spine(expr);
             }
         };
     }
